@@ -148,6 +148,7 @@ type c07Model struct {
 	ids       []int
 	slack     bool // EnsureCapacity left unused capacity beyond len
 	staleTail bool // RemoveIf / shorter CopyTo left old entries beyond len
+	nonNil    bool // the underlying Go slice is non-nil (MoveAndAppendTo into a nil slice hands over the source's backing array)
 }
 
 const c07Mut = 1 << 20
@@ -183,6 +184,7 @@ func c07Run(t *c07Type, pool int, prog []c07Op) (sig, what string) {
 			e := s.MethodByName("AppendEmpty").Call(nil)[0]
 			t.mark(e, next)
 			m.ids = append(m.ids, next)
+			m.nonNil = true
 			next++
 			// appending may consume slack / stale entries (conservative: flags stay)
 		case "app2":
@@ -190,12 +192,14 @@ func c07Run(t *c07Type, pool int, prog []c07Op) (sig, what string) {
 				e := s.MethodByName("AppendEmpty").Call(nil)[0]
 				t.mark(e, next)
 				m.ids = append(m.ids, next)
+				m.nonNil = true
 				next++
 			}
 		case "cap":
 			s.MethodByName("EnsureCapacity").Call([]reflect.Value{reflect.ValueOf(len(m.ids) + o.B)})
 			if o.B > 0 {
 				m.slack = true
+				m.nonNil = true
 			}
 		case "rmfirst", "rmlast", "rmall", "rmeven":
 			i := 0
@@ -241,11 +245,18 @@ func c07Run(t *c07Type, pool int, prog []c07Op) (sig, what string) {
 				dm.staleTail = true
 			}
 			dm.ids = append([]int(nil), m.ids...)
+			if len(m.ids) > 0 {
+				dm.nonNil = true
+			}
 		case "moveapp":
 			dm := models[o.B]
 			s.MethodByName("MoveAndAppendTo").Call([]reflect.Value{vals[o.B]})
+			if !dm.nonNil {
+				// "*dest.orig = *es.orig": the destination takes over the source's backing array with whatever lies beyond its length
+				dm.staleTail, dm.slack, dm.nonNil = m.staleTail, m.slack, m.nonNil
+			}
 			dm.ids = append(dm.ids, m.ids...)
-			m.ids, m.slack, m.staleTail = nil, false, false
+			m.ids, m.slack, m.staleTail, m.nonNil = nil, false, false, false
 		}
 		for i := range vals {
 			if g, w := fmt.Sprint(t.obs(vals[i])), fmt.Sprint(append([]int{}, models[i].ids...)); g != w {
